@@ -35,11 +35,11 @@ SCENARIOS = {
 BUDGET = {
     "C03": {"quick": 4000, "thorough": 200000},
     "C06": {"quick": 8000, "thorough": 400000},
-    "C07": {"quick": 2000, "thorough": 120000},
-    "C08": {"quick": 20000, "thorough": 1500000},
-    "C09": {"quick": 25000, "thorough": 2000000},
+    "C07": {"quick": 3000, "thorough": 150000},
+    "C08": {"quick": 20000, "thorough": 1000000},
+    "C09": {"quick": 20000, "thorough": 1000000},
     "C10": {"quick": 20000, "thorough": 1200000},
-    "C12": {"quick": 3000, "thorough": 200000},
+    "C12": {"quick": 6000, "thorough": 400000},
     "C14": {"quick": 25000, "thorough": 2000000},
 }
 WALL = {"quick": 420, "thorough": 2700}
